@@ -11,7 +11,7 @@ import traceback
 from lib.coqterm import cbytes, cbool, cZ, cN, clist, copt
 
 ID = "C47"
-QUICK_N = 1200
+QUICK_N = 800
 THOROUGH_N = 12000
 SHARD = 100
 COQ_PRELUDE = "From MV Require Import Model.WebFlowEdit.\n"
